@@ -175,12 +175,17 @@ func (array *Array) NextArray() (*Array, error) {
 // ReverseBy returns the reversed array with the specified step.
 func (array *Array) ReverseBy(step int) *Array {
 	ra := NewArray()
+	if step < 1 {
+		step = 1
+	}
 	l := len(array.msgs)
-	for i := 0; i < l; i += step {
-		for j := 0; j < step; j++ {
-			idx := (l - i - 1) - (step - 1) + j
-			ra.msgs = append(ra.msgs, array.msgs[idx])
+	// Starts from the last group, which is shorter if the size is not a multiple of the step.
+	for i := (l / step) * step; 0 <= i; i -= step {
+		end := i + step
+		if l < end {
+			end = l
 		}
+		ra.msgs = append(ra.msgs, array.msgs[i:end]...)
 	}
 	return ra
 }
